@@ -86,6 +86,13 @@ func (m MetavarMatcher) Match(got reflect.Value, d data.Data, r Region) (data.Da
 		return d, false
 	}
 
+	// A metavariable stands for code that is there: an optional part that
+	// is absent (a nil label, a nil slice bound) is not an identifier or
+	// an expression.
+	if k := got.Kind(); (k == reflect.Ptr || k == reflect.Interface) && got.IsNil() {
+		return d, false
+	}
+
 	key := metavarKey(m.Name)
 
 	var md metavarData
